@@ -119,6 +119,8 @@ def build_driver_model():
     if rc != 0:
         msg = "the regenerated Gen/*.lean no longer compiles together with the model driver: " + first_error(out)
         gen_fallback(["Counts.lean", "Sizes.lean", "Tables.lean", "Cmds.lean", "Strs.lean", "Objs.lean", "Flows.lean"])
+        # from here on every Gen file is the baseline copy: theorems over them say nothing about the current source
+        FAILED_GEN.update(["Counts.lean", "Sizes.lean", "Tables.lean", "Cmds.lean", "Strs.lean", "Objs.lean", "Flows.lean"])
         rc2, out2 = lake_build(["gsmodel"])
         if rc2 != 0:
             raise SystemExit("gsmodel does not build even with baseline Gen:\n" + out2[-3000:])
